@@ -8,15 +8,22 @@
    the table check that every playlist generator runs under the muxer mutex
    ([c08_generate_under_mutex], the only part tied to the code).  [c08_atomic_view],
    [c08_monotone_view] and the two relation theorems follow from the definition of [run] in
-   Model/LocksetAtomic.v; S, R, gen stay universally quantified: they are NOT instantiated with the
-   muxer model (gen_media_playlist) or a C03-C05 invariant - the single-playlist invariants of each
-   response are checked by the harness oracle.
+   Model/LocksetAtomic.v with S, R, gen universally quantified. INSTANTIATED with the executable muxer
+   model (Proofs/MuxViews.v): the writer's critical sections are the model's write operations, reads
+   are interleaved anywhere between them; [c08_muxer_view_reachable] (every response of any generator
+   is the generator applied to the state reached from the initial one by a PREFIX of the write
+   history), [c08_muxer_views_in_order] (two successive responses to one requester come from states
+   of which the later is reached from the earlier by further writes) and [c08_muxer_views_monotone]
+   (their streams are related by the history relation R of C04: published list append-only, evictions
+   at the head only and counted by MEDIA-SEQUENCE, segment / part counters never decreasing). The
+   single-playlist invariants of each response are those of the reachable states (C03-C05 theorems);
+   that the real handlers compute [gen] of the state they lock is the table check plus the harness.
    Panic freedom of handle/mux_write is a statement about the sequential muxer model (M3) and is
    exercised here only by the stress harness (see the tie). *)
 From Coq Require Import List String Bool Arith Sorting.Sorted.
 From GoHls Require Import Model.Lockset Model.LocksetFindings Model.LocksetCheck Model.LocksetAtomic
      Proofs.LocksetSound Proofs.LocksetTableCheck Proofs.LocksetAtomicProofs Proofs.LocksetExamples
-     Generated.LocksetTable.
+     Generated.LocksetTable Model.Mux Proofs.MuxHistory Proofs.MuxViews.
 Import ListNotations.
 
 (* Generic, proved once: if every pair of rows of a table is checked ([pair_safe]: not conflicting,
@@ -111,3 +118,28 @@ Theorem c08_monotone_view_relation : forall (S R : Type) (gen : S -> R) (Q : R -
     Q (snd e1) (snd e2).
 Proof. exact monotone_view_relation. Qed.
 Print Assumptions c08_monotone_view_relation.
+
+(* ---- the generic lemmas instantiated with the executable muxer model (Model/Mux.v) ---- *)
+Theorem c08_muxer_view_reachable : forall (Rsp : Type) (gen : mstate -> Rsp) m0 evs r n resp,
+  In (r, n, resp) (responses mstate Rsp gen m0 (steps_of m0 evs)) ->
+  resp = gen (mux_run m0 (firstn n (writes evs))).
+Proof. exact muxer_view_reachable. Qed.
+Print Assumptions c08_muxer_view_reachable.
+
+Theorem c08_muxer_views_in_order : forall (Rsp : Type) (gen : mstate -> Rsp) m0 evs r l1 e1 e2 l2,
+  of_requester Rsp r (responses mstate Rsp gen m0 (steps_of m0 evs)) = l1 ++ e1 :: e2 :: l2 ->
+  exists ops1 ops2, snd e1 = gen (mux_run m0 ops1) /\ snd e2 = gen (mux_run m0 (ops1 ++ ops2)).
+Proof. exact muxer_views_in_order. Qed.
+Print Assumptions c08_muxer_views_in_order.
+
+Theorem c08_muxer_views_monotone : forall m0 evs r l1 e1 e2 l2,
+  of_requester _ r (responses mstate _ m_streams m0 (steps_of m0 evs)) = l1 ++ e1 :: e2 :: l2 ->
+  Forall2 MuxHistory.R (snd e1) (snd e2).
+Proof. exact muxer_views_monotone. Qed.
+Print Assumptions c08_muxer_views_monotone.
+
+Theorem c08_muxer_views_nonvacuous : forall m0 o1 o2,
+  map (fun e => snd (fst e)) (of_requester _ 7 (responses mstate _ m_streams m0
+        (steps_of m0 [ERead 7; EWrite o1; ERead 7; ERead 3; EWrite o2; ERead 7]))) = [0; 1; 2]%nat.
+Proof. exact views_example. Qed.
+Print Assumptions c08_muxer_views_nonvacuous.
